@@ -27,6 +27,9 @@ func runC19(c *an.Ctx) {
 	r19d(c)
 	r19e(c)
 	r19f(c)
+	// round 7
+	r19g(c)
+	r19h(c)
 }
 
 const evPkg = "common/event"
